@@ -239,6 +239,7 @@ class Interp:
         self.ref = XRef(self.nodes, self)
         self.flags = {}
         self.stats = {}          # dynamic coverage counters (what was actually instantiated)
+        self.in_aset = 0         # > 0 while the attributes of an attribute set are instantiated (dynamic extent)
         self.undeclared_stack = [set()]   # per running template instance: names passed to it that it does not declare
         self.fuel = fuel
         self.templates = []
@@ -630,7 +631,11 @@ class Interp:
                 self.apply_sets(uses, cx, b, tm, mode, active + (nm,))
                 for avt, body in attrs:
                     an = self.qname(self.avt(avt, cx, {}), True)
-                    v = self.body_string(body, cx, {}, tm, mode, "attribute")
+                    self.in_aset += 1
+                    try:
+                        v = self.body_string(body, cx, {}, tm, mode, "attribute")
+                    finally:
+                        self.in_aset -= 1
                     self.emit_attr(b, an, self.shown(an), v)
 
     def shown(self, name):
@@ -843,6 +848,10 @@ class _Env(dict):
             it.marker_next = False
             it.useidx += 1
         if dict.__contains__(self, k):
+            if it.in_aset:
+                # class of a known deviation: a LOCAL binding (variable or param, also of a template called from
+                # there or of a top-level variable first evaluated there) read while an attribute set is instantiated
+                it.flags["local_binding_read_inside_attribute_set"] = 1
             return dict.__getitem__(self, k)
         if k in it.undeclared_stack[-1]:
             # 11.6: a with-param the template does not declare is ignored: the reference sees the top-level binding
